@@ -113,10 +113,37 @@ template<int DD = D> void float_probe(Case& c) {
 	} else { (void)c; }
 }
 
+// Elements that are only partially ordered (doubles with NaN): the six operators keep their definitions - `<` is std::lexicographical_compare with the elements' `<`, `==` is
+// element-wise, `<=` is (`<` or `==`), `>`/`>=` are the mirrored forms - so `a <= b` must not become true for operands that are neither less nor equal.
+// (Trichotomy is not demanded here: with an unordered pair at the first difference none of a<b, a==b, b<a holds, by the elements' own order.)
+template<int DD = D> void unordered_probe(Case& c) {
+	if constexpr(DD == 1 || DD == 2) {
+		Rng& g = c.rng; double const nan = std::numeric_limits<double>::quiet_NaN(); L const n = g.in(1, 4), m2 = g.in(1, 4); auto val = [&] { L r = g.below(4); return r == 3 ? nan : double(r); };
+		std::vector<double> x, y; for(L k = 0; k < n; ++k) x.push_back(val()); y = x; if(g.chance(2, 3)) { y.resize(std::size_t(m2), 0.0); for(L k = 0; k < m2; ++k) if(k >= n || g.chance(1, 3)) y[std::size_t(k)] = val(); }
+		auto show = [](std::vector<double> const& v) { std::string s = "["; for(double d : v) s += (d != d ? std::string("NaN") : std::to_string(int(d))) + " "; return s + "]"; };
+		describe(" unordered-elements probe a=" + show(x) + " b=" + show(y)); sig_mix("unordered"); sig_mix(std::uint64_t(x.size() * 8 + y.size())); op("unordered-probe"); count("unordered-element-probes");
+		bool const lt = std::lexicographical_compare(x.begin(), x.end(), y.begin(), y.end()), gt = std::lexicographical_compare(y.begin(), y.end(), x.begin(), x.end()), eq = x.size() == y.size() && std::equal(x.begin(), x.end(), y.begin());
+		bool const self_eq = std::equal(x.begin(), x.end(), x.begin());
+		auto six_ = [&](auto const& a, auto const& b, char const* kp, bool lt, bool gt, bool eq) { using A = std::decay_t<decltype(a)>; using B = std::decay_t<decltype(b)>;
+			auto K = [&](char const* w) { return std::string("C07:D1:unordered-elements:") + w + ":" + kp; }; auto Dt = [&](char const* o, bool got, bool want) { return std::string(o) + " returned " + (got ? "true" : "false") + ", the definition gives " + (want ? "true" : "false") + " for a=" + show(x) + " b=" + show(y); };
+			if constexpr(has_eq<A, B>::value) { bool r = bool(a == b); if(r != eq) violation(K("eq"), Dt("==", r, eq)); } if constexpr(has_ne<A, B>::value) { bool r = bool(a != b); if(r == eq) violation(K("ne"), Dt("!=", r, !eq)); }
+			if constexpr(has_lt<A, B>::value) { bool r = bool(a < b); if(r != lt) violation(K("lt"), Dt("<", r, lt)); } if constexpr(has_gt<A, B>::value) { bool r = bool(a > b); if(r != gt) violation(K("gt"), Dt(">", r, gt)); }
+			if constexpr(has_le<A, B>::value) { bool r = bool(a <= b); if(r != (lt || eq)) violation(K("le"), Dt("<=", r, lt || eq)); count("evaluated:<=(unordered)"); } if constexpr(has_ge<A, B>::value) { bool r = bool(a >= b); if(r != (gt || eq)) violation(K("ge"), Dt(">=", r, gt || eq)); count("evaluated:>=(unordered)"); } };
+		auto six = [&](auto const& a, auto const& b, char const* kp) { if(std::string(kp).find("itself") != std::string::npos) six_(a, b, kp, false, false, self_eq); else six_(a, b, kp, lt, gt, eq); };
+		multi::array<double, 1> A1(multi::extensions_t<1>{L(x.size())}), B1(multi::extensions_t<1>{L(y.size())}); std::copy(x.begin(), x.end(), A1.begin()); std::copy(y.begin(), y.end(), B1.begin());
+		six(A1, B1, "array~array"); six(A1(), B1(), "view~view"); six(std::as_const(A1)(), std::as_const(B1)(), "const-view~const-view"); six(A1, A1, "array~itself");
+		multi::array<double, 2> R({2, L(x.size())}, 0.0), C({L(y.size()), 3}, 0.0); std::copy(x.begin(), x.end(), R[1].begin()); std::copy(y.begin(), y.end(), (~C)[2].begin());
+		multi::array<double, 2> R2({2, L(y.size())}, 0.0); std::copy(y.begin(), y.end(), R2[0].begin()); six(R[1], R2[0], "row~row"); six(R[1], R[1], "row~itself");
+		multi::array<double, 2> C1({L(x.size()), 2}, 0.0); std::copy(x.begin(), x.end(), (~C1)[0].begin()); six((~C1)[0], (~C)[2], "column~column");
+		multi::array_ref<double, 1> XR(multi::extensions_t<1>{L(x.size())}, x.data()), YR(multi::extensions_t<1>{L(y.size())}, y.data()); six(XR, YR, "array_ref~array_ref");
+	} else { (void)c; }
+}
+
 int main(int argc, char** argv) {
 	return main_loop(argc, argv, [&](Case& c) {
 		static bool init = false; if(!init) { init = true; auto& a = st().args; for(std::size_t i = 0; i + 1 < a.size(); ++i) if(a[i] == "--maxext") MAXEXT = std::atoi(a[i + 1].c_str()); }
 		if(c.k % 10 == 7) { float_probe(c); nontrivial(); return; }
+		if(D == 1 && c.k % 10 == 3) { unordered_probe(c); nontrivial(); return; }
 		Rng& g = c.rng; bool const triple = g.chance(1, 5);
 		NV x = gen(g, MAXEXT, true), y = related(g, x, MAXEXT);
 		if(!triple) {
